@@ -12,6 +12,7 @@ Verdict(c) ==
   ELSE IF ~c.blocked_done THEN "C04.real.blocked-operation-never-returned"
   ELSE IF c.blocked_receive # "EOFError" THEN "C04.real.blocked-receive-did-not-raise-EOFError"
   ELSE IF c.blocked_waitclose # "EOFError" THEN "C04.real.blocked-waitclose-did-not-raise-EOFError"
+  ELSE IF c.blocked_fileread # "returned" \/ c.file # <<"xyz\n", "">> THEN "C04.real.channel-file-did-not-return-the-arrived-items-and-then-end"
   ELSE IF c.items # <<"a", "b">> THEN "C04.real.arrived-items-not-delivered-in-order"
   ELSE IF c.later_receive # "EOFError" \/ c.receive_again # "EOFError" THEN "C04.real.later-receive-did-not-raise-EOFError"
   ELSE IF c.later_waitclose # "EOFError" THEN "C04.real.later-waitclose-did-not-raise-EOFError"
